@@ -29,7 +29,7 @@ type C11Op struct {
 	Kind      string `json:"kind"` // query | validate | fmtschema
 	Doc       string `json:"doc,omitempty"`
 	DocName   string `json:"doc_name,omitempty"` // validate: name of the source the document is parsed from
-	Rules     string `json:"rules,omitempty"` // default | nosuggest | subset
+	Rules     string `json:"rules,omitempty"`    // default | nosuggest | subset
 	RulesSeed uint64 `json:"rules_seed,omitempty"`
 	VarsSeed  uint64 `json:"vars_seed,omitempty"`
 	Coerce    bool   `json:"coerce,omitempty"`
